@@ -4,8 +4,16 @@ import Driver.H3Validate
 import Driver.Codec
 import Driver.CloseTimer
 import Driver.Cid
+import Driver.StreamSys
+import Driver.Builder
+import Driver.Ack
+import Driver.H3Parser
 
 structure World where
+  h3p : Drv.H3W := {}
+  ack : Drv.AckW := {}
+  bld : Drv.BldW := {}
+  sys : Drv.SysW := {}
   cid : Drv.CidW := {}
   close : Drv.CloseW := {}
   codec : Drv.CodecW := {}
@@ -37,6 +45,18 @@ def step (w : World) (line : String) : World × String :=
     else if t.startsWith "cid." then
       let (s, o) := Drv.stepCid w.cid toks
       ({ w with cid := s }, o)
+    else if t.startsWith "sys." then
+      let (s, o) := Drv.stepSys w.sys toks
+      ({ w with sys := s }, o)
+    else if t.startsWith "bld." then
+      let (s, o) := Drv.stepBuilder w.bld toks
+      ({ w with bld := s }, o)
+    else if t.startsWith "ack." then
+      let (s, o) := Drv.stepAck w.ack toks
+      ({ w with ack := s }, o)
+    else if t.startsWith "h3." ∨ t.startsWith "h0." ∨ t.startsWith "closef." then
+      let (s, o) := Drv.stepH3 w.h3p toks
+      ({ w with h3p := s }, o)
     else (w, "bad-op")
 
 partial def loop (hin hout : IO.FS.Stream) (w : World) : IO Unit := do
